@@ -50,10 +50,11 @@ def scalar_api_replay(chk, op, nargs, spec, key):
     Rinv_ = pow(R, L - 2, L)
     ss = ptreplay.structured_scalars()
     # structured values both as canonical integers and as Montgomery limb patterns (value = limbs * R^-1)
-    specials = [0, 1, 2, L - 1, L - 2, (L - 1) // 2, 2**252, 2**128, 2**64 - 1, 2**255 % L] + [ss[(i * 53) % len(ss)] for i in range(20)] + [ss[(i * 31 + 7) % len(ss)] * Rinv_ % L for i in range(40)]
+    msx = ptreplay.montgomery_structured(600)
+    specials = msx + [0, 1, 2, L - 1, L - 2, (L - 1) // 2, 2**252, 2**128, 2**64 - 1, 2**255 % L] + [ss[(i * 53) % len(ss)] for i in range(20)] + [ss[(i * 31 + 7) % len(ss)] * Rinv_ % L for i in range(40)]
     ops, meta = [], []
     names = ["a", "b", "c"][:nargs]
-    for t in range(60):
+    for t in range(200):
         vals = {n: (rng.choice(specials) if rng.random() < 0.6 else rng.randrange(L)) for n in names}
         # aliasing patterns: receiver distinct / aliased to each arg / args aliased
         pats = [["s"] + names]
